@@ -23,5 +23,14 @@ def derivative (t : Nat × Nat × List Int × Int) (f : α → α) (x0 dx : α) 
     (fun acc p => acc + (ofInt p.2 / ofInt t.2.2.2) * f (x0 + ofInt (C20.node t.2.1 p.1) * dx)) zero
   val / Transc.npow dx t.1
 
+/-- `gradient( func, nvar, n, dx, order )[ i ]( points )`: the stencil applied to `s ↦ func( points with coordinate i := s )` at
+`s = points[ i ]` (utils/derivatives.py:218-233) -/
+def partialD (t : Nat × Nat × List Int × Int) (f : (Nat → α) → α) (i : Nat) (x : Nat → α) (dx : α) : α :=
+  derivative t (fun s => f (fun k => if k = i then s else x k)) (x i) dx
+
+/-- `hessianMatrix( func, nvar, dx, order )[ i ][ j ]( points )`: the gradient of the `i`-th gradient component (derivatives.py:291-295) -/
+def hessD (t : Nat × Nat × List Int × Int) (f : (Nat → α) → α) (i j : Nat) (x : Nat → α) (dx : α) : α :=
+  partialD t (fun y => partialD t f i y dx) j x dx
+
 end
 end FF.Deriv
